@@ -301,6 +301,7 @@ func main() {
 	// to it through the overlay.
 	var repo, outDir string
 	var addDirs []string
+	plain := false
 	var pkgs []string
 	args := os.Args[1:]
 	for i := 0; i < len(args); i++ {
@@ -311,6 +312,10 @@ func main() {
 		case "-out":
 			outDir = args[i+1]
 			i++
+		case "-plain":
+			// only add the harness files to the packages, without rewriting anything
+			// (used by the free-running -race pass)
+			plain = true
 		case "-add":
 			addDirs = append(addDirs, args[i+1])
 			i++
@@ -329,6 +334,16 @@ func main() {
 		panic(err)
 	}
 	for _, pkg := range pkgs {
+		if plain {
+			for _, addDir := range addDirs {
+				extra, _ := filepath.Glob(filepath.Join(addDir, pkg, "*.go"))
+				for _, f := range extra {
+					overlay[filepath.Join(repo, pkg, filepath.Base(f))] = f
+					total++
+				}
+			}
+			continue
+		}
 		total += instrumentPackage(repo, pkg, outDir, addDirs, overlay)
 	}
 	j, _ := json.MarshalIndent(map[string]any{"Replace": overlay}, "", " ")
